@@ -8,8 +8,8 @@ Driver for C16.  One request line = one run of a transaction block under a fault
       step=<ticks per lock-step> hlocks=<b.lk,...|-> rel=<i.b.lk,...|-> rb=<head|all>
 
 faults: `i` = command i raises an Exception, `ib` = command i raises a BaseException that is no Exception (CancelledError).
-rb: the loop of `Transaction._rollback` - head = `except Exception` only (as in /repo), all = goes on past a BaseException
-(proposed repair).
+rb: the loop of `Transaction._rollback` - all = every backend is rolled back, a BaseException is re-raised at the end (as in
+/repo since 12f0cbb; what the harness asks for), head = the OLD loop, `except Exception` only (kept for the record).
 
 body commands: set.b.k.v.ttl  incr.b.k  get.b.k  del.b.k  adv.dt  raise  setmany.b.ttl.k:v+k:v+...  delmany.b.k+k+...
 (`-` = no ttl / no deadline).  `flocks`: lock keys held by a foreign owner for ever.  `hlocks`: lock keys held by
